@@ -8,7 +8,11 @@ use proptest::prelude::*;
 use serde::{Deserialize, Serialize};
 use std::path::{Path, PathBuf};
 
-pub const PATTERNS: [&str; 17] = [
+pub const PATTERNS: [&str; 19] = [
+    // ".." after something that is not one plain directory: a variable worth two components, a symbolic link to a
+    // directory elsewhere (`linkdir -> elsewhere/deep`) - the archive names are what the file system makes of them
+    "$ENV{LV_SLASH}/../up.{}.log",
+    "linkdir/../via.{}.log",
     "$ENV{LV_BRACES}.{}.log",
     "$ENV{LV_BRACES}/{}",
     "a.{}.log",
@@ -41,7 +45,27 @@ pub fn lookup(name: &str) -> Option<String> {
 }
 
 pub fn archive_name(pattern: &str, idx: u64) -> String {
-    expand_ref(&pattern.replace("{}", &idx.to_string()), &lookup)
+    physical(&expand_ref(&pattern.replace("{}", &idx.to_string()), &lookup))
+}
+
+/// Where a relative name with `.` / `..` components leads in the harness's directory layout (`linkdir` is a symbolic
+/// link to `elsewhere/deep`); names without such components are returned as they are.
+pub fn physical(name: &str) -> String {
+    if !name.split('/').any(|c| c == ".." || c == "." || c == "linkdir") {
+        return name.to_string();
+    }
+    let mut stack: Vec<&str> = vec![];
+    for c in name.split('/') {
+        match c {
+            "" | "." => {}
+            ".." => {
+                stack.pop();
+            }
+            "linkdir" if stack.is_empty() => stack = vec!["elsewhere", "deep"],
+            c => stack.push(c),
+        }
+    }
+    stack.join("/")
 }
 
 #[derive(Serialize, Deserialize, Debug, Clone)]
@@ -235,6 +259,11 @@ fn check_in(dir: &Path, case: &Case, obs: &mut Obs) -> CaseResult {
     let pattern_abs = format!("{}/{}", dir.display(), case.pattern);
     let name = |off: i64| -> String { archive_name(&case.pattern, (case.base as i64 + off) as u64) };
     let c = case.count as i64;
+    if case.pattern.contains("linkdir") {
+        std::fs::create_dir_all(dir.join("elsewhere/deep")).unwrap();
+        write_file(&dir.join("elsewhere/deep/resident.txt"), b"lives here");
+        std::os::unix::fs::symlink("elsewhere/deep", dir.join("linkdir")).unwrap();
+    }
     // initial state (archives whose names collide through a pattern without effect are skipped)
     let mut initial: Vec<(i64, Vec<u8>)> = vec![];
     for (off, b) in &case.initial {
@@ -260,7 +289,7 @@ fn check_in(dir: &Path, case: &Case, obs: &mut Obs) -> CaseResult {
     }
     if case.lookalikes && !case.delete_roller {
         for (k, s) in ["007", "+3", "03", "3 ", " 3", "0x3", "1e1", "\u{663}", "-1", "3.0"].iter().enumerate() {
-            let n = expand_ref(&case.pattern.replace("{}", s), &lookup);
+            let n = physical(&expand_ref(&case.pattern.replace("{}", s), &lookup));
             let clash = (-4..c + 8).any(|o| (case.base as i64 + o) >= 0 && name(o) == n) || n == active_key || n.starts_with('/');
             if clash || std::fs::symlink_metadata(dir.join(&n)).is_ok() || dir.join(&n).parent().map_or(false, |p| p.is_file()) {
                 continue;
@@ -272,6 +301,7 @@ fn check_in(dir: &Path, case: &Case, obs: &mut Obs) -> CaseResult {
     for d in &case.bystander_dirs {
         std::fs::create_dir_all(dir.join(d)).unwrap();
     }
+
     let roller: Box<dyn Roll> = if case.delete_roller {
         Box::new(DeleteRoller::new())
     } else {
@@ -308,7 +338,7 @@ fn check_in(dir: &Path, case: &Case, obs: &mut Obs) -> CaseResult {
             exact = true;
             switched = true;
         }
-        if case.wipe_before.contains(&(ri as u8)) && !case.delete_roller {
+        if case.wipe_before.contains(&(ri as u8)) && !case.delete_roller && !case.pattern.contains("linkdir") {
             // the top-level directory of every archive name that lives in a sub-directory goes away
             let mut gone = false;
             for o in 0..c {
@@ -455,6 +485,7 @@ fn check_in(dir: &Path, case: &Case, obs: &mut Obs) -> CaseResult {
     #[cfg(feature = "bg")]
     obs.class_if(case.leftovers && alt.is_none() && !case.delete_roller, "temp-file-look-alikes-present");
     obs.class_if(alt.is_some(), "rolled-file-on-another-filesystem");
+    obs.class_if(case.pattern.contains("/../"), "pattern-with-dot-dot-after-a-link-or-variable");
     obs.class_if(case.active_symlink, "rolled-file-is-a-symbolic-link");
     obs.class_if(case.wide.is_some(), "window-of-33-to-70");
     obs.class_if(case.lookalikes, "index-look-alike-bystanders");
